@@ -197,7 +197,7 @@ def run(ctx):
 
     def add(case, toolname, argv, data, expect, env=None, build=None, limit=None):
         jid = len(jobs) + 1
-        jobs.append({"id": jid, "argv": [F.tool(toolname.split(":")[0].replace("asan-", ""), build)] + argv + ["t.mfront"], "files": {"t.mfront": data}, "env": env,
+        jobs.append({"id": jid, "argv": [F.tool(toolname.split(":")[0].replace("asan-", ""), build)] + argv + ["t.mfront"], "files": {"t.mfront": data}, "env": env, "norecheck": case["mut"] in F.AMPLIFYING,
                      **({"limit": limit} if limit else {}), **({"mem": 0} if build else {})})
         meta[jid] = {"case": case["id"], "tool": toolname, "kw": case["kw"], "mut": case["mut"], "expect": expect}
 
